@@ -249,6 +249,26 @@ Theorem C13_refresher_delete_refuted :
 Proof. exact rdelete_variant_refuted. Qed.
 Print Assumptions C13_refresher_delete_refuted.
 
+(* --- the cached timestamp catches up: when a call (GetTimestamp, Wait, a refresher round) has returned ts — or has
+       left setLastTS and is about to — the cached timestamp is >= ts, then and in every later state, for any number of
+       threads, a fresh scope and any interleaving.  (This is what makes the fast paths sound: a timestamp the oracle has
+       returned is validated / compared against the cache without asking PD: C13_validate_from_cache.) --- *)
+Theorem C13_lowres_catches_up : forall (pd : nat -> Z) (pd_ns : Z -> Z),
+  (forall a b, a <= b -> pd_ns a <= pd_ns b) ->
+  forall n w0 es1 es2 t ts,
+    let s1 := arun pd pd_ns (init_asys n w0) es1 in
+    let s2 := arun pd pd_ns s1 es2 in
+    (nth_error (athr s1) t = Some (ADone (Some ts)) \/ nth_error (athr s1) t = Some (ARet ts)) ->
+    exists l a, arec s2 = Some (l, a) /\ ts <= l.
+Proof. exact T_C13_lowres_catches_up. Qed.
+Print Assumptions C13_lowres_catches_up.
+
+Theorem C13_validate_from_cache : forall st scope read stale pds l,
+  get_last st scope = Some l -> read <= l -> validate_pre read stale = None ->
+  validate_seq true st scope read stale pds = (st, VAccept, O).
+Proof. exact validate_from_cache. Qed.
+Print Assumptions C13_validate_from_cache.
+
 (* --- the call-level model refines the CAS-level system: running the calls one after the other (each thread gets
        nine scheduler slots) publishes exactly what Model.set_last (publish the maximum) computes, every call returns
        PD's answer, untouched threads stay idle --- *)
@@ -428,6 +448,12 @@ Example ex_expiry_boundary :
   (is_expired last lock (two63 - 5 - 1) = false /\ until_expired last lock (two63 - 5 - 1) = two63 - 1 - 7) /\
   (is_expired last lock (two63 - 5) = true /\ until_expired last lock (two63 - 5) = two63 - 7).
 Proof. vm_compute. repeat split; reflexivity. Qed.
+(* thread 1 lost the race (its ts 10 is older than the published 11) and returns: the cache is already ahead *)
+Example ex_catches_up :
+  let s := arun (fun k => Z.of_nat (10 + k)) (fun w => w) (init_asys 2 0)
+             ([AEv 0; AEv 1; AEv 1; AEv 0] ++ repeat (AEv 0) 8 ++ repeat (AEv 1) 8) in
+  nth_error (athr s) 1 = Some (ADone (Some 10)) /\ arec s = Some (11, 0).
+Proof. vm_compute. split; reflexivity. Qed.
 Example ex_retry_accepts :
   voutcome_of (vrun Z.of_nat true (init_vsys 2) (no_retry_sched ++ [EStep 1; EStep 1; EFlightIssue; EFlightFinish; EStep 1])) 1 = Some OAccept.
 Proof. exact retry_same_schedule. Qed.
